@@ -283,8 +283,15 @@ def loads(s):
     with our decoding version.
     """
     um = xmarshal._FastUnmarshaller(s)
+    # The dispatch table is shared by all unmarshallers: put the regular
+    # code reader back when done, or every later xdis.marsh.loads() in this
+    # process would decrypt code objects the Dropbox way.
+    saved_load_code = um.dispatch[xmarshal.TYPE_CODE]
     um.dispatch[xmarshal.TYPE_CODE] = load_code
-    return um.load()
+    try:
+        return um.load()
+    finally:
+        um.dispatch[xmarshal.TYPE_CODE] = saved_load_code
 
 
 def fix_dropbox_pyc(fp, fixed_pyc="/tmp/test.pyc"):
